@@ -8,7 +8,7 @@ import (
 
 // ---- engine "sort": entry point, emission of cases_sort_<shard>.{v,json,stats.json} ----
 
-const sortRequires = `From YK Require Import Base.Res Sort.Sort Sort.Cmp Sort.Nodes Oracles.SortCheck.
+const sortRequires = `From YK Require Import Base.Res Sort.Sort Sort.Cmp Sort.Nodes Sort.Score Oracles.SortCheck.
 From Coq Require Import List ZArith NArith Bool. Import ListNotations. Open Scope Z_scope.`
 
 func sortEngine(o *Opts) {
@@ -116,8 +116,9 @@ func sortEngine(o *Opts) {
 	b.WriteString("Definition asort_cases : list asort_case := [\n " + strings.Join(a, ";\n ") + "\n].\n")
 	b.WriteString("Definition fam_cases : list fam_case := [\n " + strings.Join(f, ";\n ") + "\n].\n")
 	b.WriteString("Definition req_cases : list req_case := [\n " + strings.Join(r, ";\n ") + "\n].\n")
+	b.WriteString("Definition node_pols : list policy := " + sortCoqPolicies() + ".\n")
 	b.WriteString("Definition node_cases : list node_case := [\n " + strings.Join(nd, ";\n ") + "\n].\n")
-	b.WriteString("Definition M := Eval vm_compute in (qsort_check qsort_cases ++ asort_check asort_cases ++ fam_check fam_cases ++ req_check req_cases ++ node_check node_cases).\nOpen Scope N_scope.\nPrint M.\n")
+	b.WriteString("Definition M := Eval vm_compute in (qsort_check qsort_cases ++ asort_check asort_cases ++ fam_check fam_cases ++ req_check req_cases ++ node_check node_pols node_cases).\nOpen Scope N_scope.\nPrint M.\n")
 	writeFile(base+".v", b.String())
 	writeJSON(base+".json", all)
 	st.CasesFile, st.CasesJSON = base+".v", base+".json"
